@@ -9,6 +9,7 @@ CONSTANTS
  CheckTs = {25, 40}
  Concurrent = TRUE
  Dev = {"CommitKeysInMutationOrder"}
+ Orders = "all"
  PlanMax = 0
  MaxHist = 30
 VIEW view
